@@ -18,7 +18,7 @@ scratch = C.make_scratch("probe")
 C.inject(scratch, used)
 target = os.path.join(C.CACHE, "kani-target")
 cmd = ["timeout", str(secs), "cargo", "kani", "-p", "serde_avro_fast", "-Z", "function-contracts", "-Z", "stubbing", "-Z", "unstable-options",
-       "--exact", "--harness", h["unit"].full_harness(h), "--output-format", "old", "--target-dir", target]
+       "--exact", "--harness", h["unit"].full_harness(h), "--output-format", "old", "--target-dir", target] + sys.argv[3:]
 p = subprocess.run(cmd, cwd=scratch, stdout=subprocess.PIPE, stderr=subprocess.STDOUT, text=True, env=dict(os.environ, CARGO_NET_OFFLINE="true", CARGO_INCREMENTAL="0"))
 cnt = collections.Counter()
 for line in p.stdout.splitlines():
